@@ -153,8 +153,8 @@ func execute(rec *Rec) {
 		if p == "" {
 			rec.Smf0, rec.Smf1 = o0, o1
 		}
-	case <-time.After(10 * time.Second):
-		rec.Panic = "timeout: export did not return within 10 s"
+	case <-time.After(30 * time.Second):
+		rec.Panic = "timeout: export did not return within 30 s"
 	}
 }
 
